@@ -129,11 +129,17 @@ func AtEdge(b *ssa.BasicBlock, k int, base Cuts) []Fact {
 }
 
 func dedup(in []Fact) []Fact {
-	seen := map[string]bool{}
+	// two tests with the same rendering made at different branch points are different facts
+	type key struct {
+		a  string
+		at *ssa.BasicBlock
+	}
+	seen := map[key]bool{}
 	var out []Fact
 	for _, f := range in {
-		if !seen[f.Atom] {
-			seen[f.Atom] = true
+		k := key{f.Atom, f.If}
+		if !seen[k] {
+			seen[k] = true
 			out = append(out, f)
 		}
 	}
@@ -250,7 +256,12 @@ func HasAtom(fs []Fact, atom string) bool {
 // Atoms lists the atoms (sorted).
 func Atoms(fs []Fact) []string {
 	var out []string
+	seen := map[string]bool{}
 	for _, f := range fs {
+		if seen[f.Atom] {
+			continue
+		}
+		seen[f.Atom] = true
 		out = append(out, f.Atom)
 	}
 	sort.Strings(out)
@@ -601,7 +612,74 @@ func AtRefined(instr ssa.Instruction, base Cuts) []Fact {
 // way control can have flowed through the phi network to produce `pol`, and carries the must-hold
 // facts of the predecessor edge it came through.
 func DNF(cond ssa.Value, pol bool) [][]Fact {
-	return dnf(cond, pol, nil, 0)
+	return expandPhiFacts(dnf(cond, pol, nil, 0), 0)
+}
+
+// expandPhiFacts replaces, in every conjunction, a path fact whose condition is itself a boolean
+// phi (a flag such as `allOK` set on some branches) by the ways that phi can have that value.
+func expandPhiFacts(in [][]Fact, depth int) [][]Fact {
+	if depth > 3 {
+		return in
+	}
+	var out [][]Fact
+	changed := false
+	for _, conj := range in {
+		idx := -1
+		for k, f := range conj {
+			if ph, ok := f.Cond.(*ssa.Phi); ok && !loopCarriedPhi(ph) && allBoolish(ph) {
+				idx = k
+				break
+			}
+		}
+		if idx < 0 {
+			out = append(out, conj)
+			continue
+		}
+		changed = true
+		f := conj[idx]
+		rest := append(append([]Fact{}, conj[:idx]...), conj[idx+1:]...)
+		for _, sub := range dnf(f.Cond, f.Pol, f.If, 0) {
+			out = append(out, dedup(append(append([]Fact{}, rest...), sub...)))
+		}
+	}
+	if changed && len(out) < 64 {
+		return expandPhiFacts(out, depth+1)
+	}
+	return out
+}
+
+func allBoolish(ph *ssa.Phi) bool {
+	b, ok := ph.Type().Underlying().(*types.Basic)
+	return ok && b.Info()&types.IsBoolean != 0
+}
+
+// loopCarriedPhi: some edge of the phi depends on the phi itself.
+func loopCarriedPhi(ph *ssa.Phi) bool {
+	seen := map[ssa.Value]bool{}
+	var dep func(v ssa.Value, d int) bool
+	dep = func(v ssa.Value, d int) bool {
+		if v == ssa.Value(ph) {
+			return true
+		}
+		if d > 6 || seen[v] {
+			return false
+		}
+		seen[v] = true
+		if x, ok := v.(*ssa.Phi); ok {
+			for _, e := range x.Edges {
+				if dep(e, d+1) {
+					return true
+				}
+			}
+		}
+		return false
+	}
+	for _, e := range ph.Edges {
+		if dep(e, 0) {
+			return true
+		}
+	}
+	return false
 }
 
 func dnf(cond ssa.Value, pol bool, at *ssa.BasicBlock, depth int) [][]Fact {
